@@ -16,7 +16,6 @@ def rtlGo (n : Nat) : Nat → Nat → List Int → Option Nat → List Int
 
 def rtl (n : Nat) : List Int := rtlGo n (Nat.log2 n + 1) 0 [] none
 
-#eval rtl 29
 
 /-- loop invariant from bit position `i ≥ 1` on -/
 structure RInvB (n i : Nat) (c : List Int) (x : Option Nat) : Prop where
@@ -155,5 +154,4 @@ theorem binary_ok (n : Nat) (hn : 1 ≤ n) : IsChain (rtl n) ∧ (rtl n).getLast
     rw [Nat.add_comm]; exact Nat.lt_log2_self
   rw [this]
 
-#print axioms binary_ok
 end P
